@@ -147,11 +147,13 @@ func TestGovcConformance(t *testing.T) {
 	{
 		cases++
 		r := buildRunner(runnerPayload{writer: io.Discard, version: "9.8.7", buildInfo: "BI-SENT", paramsExistActive: true, servicesExistActive: true,
-			inputPatterns: []string{"PAT-SENT-1", "PAT-SENT-2"}, outputFile: "OUT-SENT.go", stub: true})
+			inputPatterns: []string{"PAT-SENT-2", "PAT-SENT-1", "./PAT-SENT-2", "PAT-SENT-2"}, outputFile: "OUT-SENT.go", stub: true})
 		steps := govcField(reflect.ValueOf(r).Elem(), "steps")
 		rc := govcDeref(govcField(govcDeref(steps.Index(1)), "parent"))
 		pats := govcField(rc, "patterns")
-		if pats.Len() != 2 || pats.Index(0).String() != "PAT-SENT-1" || pats.Index(1).String() != "PAT-SENT-2" {
+		// (not in lexical order, with a repeated pattern and one that differs only before path cleaning: the patterns must
+		// arrive as given - a file matched twice is reported by StepReadConfig, not silently dropped here)
+		if pats.Len() != 4 || pats.Index(0).String() != "PAT-SENT-2" || pats.Index(1).String() != "PAT-SENT-1" || pats.Index(2).String() != "./PAT-SENT-2" || pats.Index(3).String() != "PAT-SENT-2" {
 			t.Errorf("GOVC-CONF composition: StepReadConfig.patterns = %v, want the input patterns in flag order", pats)
 		}
 		cg := govcDeref(govcField(govcDeref(steps.Index(4)), "parent"))
